@@ -1724,6 +1724,127 @@ def rule_shape_arg(ctx):
     return r
 
 
+def rule_broadcast_axes(ctx):
+    r = RuleResult('C02.broadcast-axes', 'the UTPM-aware broadcasting helper _broadcast_arrays keeps the coefficient and direction axes apart from the element '
+                                         'axes: interpreted over axis labels for operand ranks 2..5, both operands enter numpy broadcasting with (D, P) as '
+                                         'their *last* two axes and come back with (D, P) in front and the element axes in their original order')
+    from .indexenum import IndexEnum, NotEvaluable
+    m = ctx.model
+    ci = m.cls('RawAlgorithmsMixIn')
+    fi = ci.methods.get('_broadcast_arrays') if ci else None
+    if fi is None:
+        r.unknown(ALGO + ':_broadcast_arrays', 'helper vanished')
+        return r
+    vp = fi.value_params()
+    if len(vp) < 2:
+        r.unknown(fi.site(), 'signature (x_data, y_data) not recognised')
+        return r
+    class AxisViolation(Exception):
+        pass
+
+    def run(Lx, Ly):
+        """-> (labels of the two returned arrays, labels at the broadcasting call) or raises NotEvaluable"""
+        lab = {vp[0]: ['D', 'P'] + ['x%d' % i for i in range(Lx - 2)], vp[1]: ['D', 'P'] + ['y%d' % i for i in range(Ly - 2)]}
+        ie = IndexEnum(m, fi.module, {})
+        at_bc = None
+
+        def rank_facts():
+            ie.facts = {}
+            for nm, l in lab.items():
+                ie.facts['len(%s.shape)' % nm] = len(l)
+                ie.facts['%s.ndim' % nm] = len(l)
+                ie.facts['numpy.ndim(%s)' % nm] = len(l)
+                ie.facts['len(numpy.shape(%s))' % nm] = len(l)
+        for st in fi.node.body:
+            rank_facts()
+            if isinstance(st, ast.Expr) and isinstance(st.value, ast.Constant):
+                continue
+            if isinstance(st, ast.Assign) and len(st.targets) == 1 and isinstance(st.targets[0], ast.Name):
+                t, v = st.targets[0].id, st.value
+                if isinstance(v, ast.Call) and isinstance(v.func, ast.Attribute) and v.func.attr == 'transpose' and isinstance(v.func.value, ast.Name) \
+                        and v.func.value.id in lab:
+                    ax = ie.ev(v.args[0]) if len(v.args) == 1 else tuple(ie.ev(a) for a in v.args)
+                    src = lab[v.func.value.id]
+                    if sorted(ax) != list(range(len(src))):
+                        raise AxisViolation('axes %s are not a permutation of the %d axes of %s' % (ax, len(src), v.func.value.id))
+                    lab[t] = [src[i] for i in ax]
+                    continue
+                if isinstance(v, ast.Call) and (dotted_name(v.func) or '') == 'numpy.transpose' and v.args and isinstance(v.args[0], ast.Name) and v.args[0].id in lab:
+                    axn = v.args[1] if len(v.args) > 1 else next((k.value for k in v.keywords if k.arg == 'axes'), None)
+                    src = lab[v.args[0].id]
+                    ax = tuple(reversed(range(len(src)))) if axn is None else ie.ev(axn)
+                    if sorted(ax) != list(range(len(src))):
+                        raise AxisViolation('axes %s are not a permutation' % (ax,))
+                    lab[t] = [src[i] for i in ax]
+                    continue
+                ie.env[t] = ie.ev(v)
+                continue
+            if isinstance(st, ast.Assign) and len(st.targets) == 1 and isinstance(st.targets[0], ast.Tuple) and isinstance(st.value, ast.Call) \
+                    and (dotted_name(st.value.func) or '').split('.')[-1] == 'broadcast_arrays' and len(st.value.args) == 2 \
+                    and all(isinstance(a, ast.Name) and a.id in lab for a in st.value.args) and len(st.targets[0].elts) == 2:
+                a, b = (lab[x.id] for x in st.value.args)
+                at_bc = (list(a), list(b))
+                L = max(len(a), len(b))
+                pa, pb = [None] * (L - len(a)) + a, [None] * (L - len(b)) + b
+                merged = []
+                for u, w in zip(pa, pb):
+                    if u in ('D', 'P') or w in ('D', 'P'):
+                        if u != w:
+                            raise AxisViolation('numpy broadcasting pairs axis %s of the first operand with axis %s of the second' % (u, w))
+                        merged.append(u)
+                    else:
+                        merged.append('e%d' % len(merged))
+                # element axes are numbered from the right so that both operands agree on them
+                el = [x for x in merged if x not in ('D', 'P')]
+                ren = {x: 'e%d' % i for i, x in enumerate(el)}
+                merged = [ren.get(x, x) for x in merged]
+                for e_ in st.targets[0].elts:
+                    lab[e_.id] = list(merged)
+                continue
+            if isinstance(st, ast.Return):
+                vals = st.value.elts if isinstance(st.value, ast.Tuple) else [st.value]
+                return [lab.get(x.id) if isinstance(x, ast.Name) else None for x in vals], at_bc
+            raise NotEvaluable('statement not understood: ' + norm(st)[:60])
+        raise NotEvaluable('no return reached')
+
+    for Lx in range(2, 6):
+        for Ly in range(2, 6):
+            key = 'ranks(%d,%d)' % (Lx, Ly)
+            try:
+                rets, at_bc = run(Lx, Ly)
+            except AxisViolation as e:
+                r.bad(Finding('C02.broadcast-axes', _f(fi), key + ':' + str(e)[:50], '_broadcast_arrays, operand ranks (%d, %d): %s' % (Lx, Ly, e), fi.file, fi.lineno))
+                continue
+            except NotEvaluable as e:
+                r.unknown(fi.site(), 'operand ranks (%d, %d): %s' % (Lx, Ly, e))
+                continue
+            except (TypeError, ValueError, IndexError) as e:
+                r.unknown(fi.site(), 'operand ranks (%d, %d): axes expression not evaluable (%s)' % (Lx, Ly, e))
+                continue
+            probs = []
+            if at_bc is None:
+                probs.append('numpy broadcasting is never applied')
+            else:
+                for nm, l in zip(vp, at_bc):
+                    if l[-2:] != ['D', 'P']:
+                        probs.append('`%s` enters broadcasting with axes %s: the coefficient and direction axes are not the last two, so they are '
+                                     'broadcast against element axes of the other operand' % (nm, l))
+            L = max(Lx, Ly)
+            want = ['D', 'P'] + ['e%d' % i for i in range(L - 2)]
+            for nm, l in zip(vp, rets):
+                if l is not None and l != want and not probs:
+                    probs.append('the returned `%s` has axes %s, expected %s' % (nm, l, want))
+                if l is None:
+                    probs.append('returned value not understood')
+            if probs:
+                for pm in probs:
+                    r.bad(Finding('C02.broadcast-axes', _f(fi), key + ':' + pm[:50], '_broadcast_arrays, operand ranks (%d, %d): %s' % (Lx, Ly, pm), fi.file, fi.lineno))
+            else:
+                r.ok(construct=key, nontrivial=True, sample='_broadcast_arrays ranks (%d,%d): (D,P) last at the broadcasting call, result axes %s' % (Lx, Ly, want))
+    r.floor = 16
+    return r
+
+
 def rule_transpose_axes(ctx):
     r = RuleResult('C13.transpose-axes', 'the transpose kernel permutes the coefficient array like numpy.transpose permutes each slice: the two leading '
                                          '(D, P) axes stay, *all* remaining axes are reversed - decided by evaluating the axes expression for every rank 2..6 '
